@@ -9,6 +9,7 @@
 // argv[1]: scratch directory for the XML files written on the way.
 #include <fstream>
 #include <iostream>
+#include <memory>
 #include <sstream>
 #include <stdexcept>
 #include <string>
@@ -65,6 +66,7 @@ static void Dump(const Property &p, long depth, json &out, bool with_index_check
     if (p.HasChildren() != (p.begin() != p.end())) ok = false;
     if (p.size() != Index(std::distance(p.begin(), p.end()))) ok = false;
     node.push_back(ok);
+    node.push_back(p.path());
   }
   out.push_back(node);
   for (const Property &c : p) Dump(c, depth + 1, out, with_index_check, child_path, check_path);
@@ -181,15 +183,18 @@ int main(int argc, char **argv) {
           input = &loaded;
         }
         OptionsHandler handler(j["dir"].get<std::string>());
+        if (j.contains("extra")) handler.setAdditionalChoices(j["extra"].get<std::vector<std::string>>());
         Property result = handler.ProcessUserInput(*input, j["calc"].get<std::string>());
-        json out = json::array();
-        for (const Property &c : result) Dump(c, 0, out, false);
+        json pinfo;
+        json out = DumpTop(result, false, &pinfo);
+        std::cout << "paths " << pinfo.dump() << std::endl;
         std::cout << "tree " << out.dump() << std::endl;
       } else if (verb == "calcopts") {
         OptionsHandler handler(j["dir"].get<std::string>());
         Property result = handler.CalculatorOptions(j["calc"].get<std::string>());
-        json out = json::array();
-        for (const Property &c : result) Dump(c, 0, out, false);
+        json pinfo;
+        json out = DumpTop(result, false, &pinfo);
+        std::cout << "paths " << pinfo.dump() << std::endl;
         std::cout << "tree " << out.dump() << std::endl;
       } else if (verb == "roundtrip") {
         Property root;
@@ -204,9 +209,17 @@ int main(int argc, char **argv) {
         std::cout << "xml " << json(Slurp(f)).dump() << std::endl;
         Property back;
         back.LoadFromXML(f);
-        json out = json::array();
-        for (const Property &c : back) Dump(c, 0, out, true);
+        json pinfo;
+        json out = DumpTop(back, true, &pinfo);
+        std::cout << "paths " << pinfo.dump() << std::endl;
         std::cout << "tree " << out.dump() << std::endl;
+        // second generation: print what was loaded, load again (same object type, second use)
+        std::string f2 = TmpName("rt2");
+        WriteXml(f2, back, 1);
+        Property back2;
+        back2.LoadFromXML(f2);
+        json out2 = DumpTop(back2, true, nullptr);
+        std::cout << "tree2 " << out2.dump() << std::endl;
       } else if (verb == "lit") {
         Property p("x", j["s"].get<std::string>(), "");
         json r = json::object();
@@ -228,7 +241,103 @@ int main(int argc, char **argv) {
           return a;
         });
         r["s"] = TryCast<std::string>(p, [](const std::string &v) { return json(v); });
+        r["sv"] = TryCast<std::vector<std::string>>(p, [](const std::vector<std::string> &v) { return json(v); });
+        r["d3"] = TryCast<Eigen::Vector3d>(p, [](const Eigen::Vector3d &v) {
+          return json::array({D17(v[0]), D17(v[1]), D17(v[2])});
+        });
         std::cout << "lit " << r.dump() << std::endl;
+      } else if (verb == "load") {
+        // {xml: text, crlf: bool, twice: bool}: LoadFromXML on a file with exactly these bytes
+        std::string text = j["xml"].get<std::string>();
+        if (j.value("crlf", false)) {
+          std::string t2;
+          for (char c : text) {
+            if (c == '\n') t2 += '\r';
+            t2 += c;
+          }
+          text = t2;
+        }
+        std::string f = TmpName("ld");
+        {
+          std::ofstream o(f, std::ios::binary);
+          o << text;
+        }
+        Property back;
+        back.LoadFromXML(f);
+        if (j.value("twice", false)) back.LoadFromXML(f);  // same object a second time: appended
+        json pinfo;
+        json out = DumpTop(back, true, &pinfo);
+        std::cout << "paths " << pinfo.dump() << std::endl;
+        std::cout << "tree " << out.dump() << std::endl;
+      } else if (verb == "hs") {
+        // one OptionsHandler used repeatedly: {op:new,dir} {op:extra,list} {op:process,calc,user} {op:calcopts,calc}
+        static std::unique_ptr<OptionsHandler> hs;
+        std::string op = j["op"].get<std::string>();
+        if (op == "new") {
+          hs = std::make_unique<OptionsHandler>(j["dir"].get<std::string>());
+          std::cout << "ok" << std::endl;
+        } else if (op == "extra") {
+          hs->setAdditionalChoices(j["list"].get<std::vector<std::string>>());
+          std::cout << "ok" << std::endl;
+        } else if (op == "process") {
+          Property user;
+          Build(user, j["user"]);
+          Property result = hs->ProcessUserInput(user, j["calc"].get<std::string>());
+          json pinfo;
+          json out = DumpTop(result, false, &pinfo);
+          std::cout << "paths " << pinfo.dump() << std::endl;
+          std::cout << "tree " << out.dump() << std::endl;
+        } else if (op == "calcopts") {
+          Property result = hs->CalculatorOptions(j["calc"].get<std::string>());
+          json pinfo;
+          json out = DumpTop(result, false, &pinfo);
+          std::cout << "paths " << pinfo.dump() << std::endl;
+          std::cout << "tree " << out.dump() << std::endl;
+        } else {
+          throw std::logic_error("driver: unknown hs op " + op);
+        }
+      } else if (verb == "bulk") {
+        // {n,k}: n children named c<i mod k> with value i under one node; closed-form observations
+        Index n = j["n"].get<Index>(), k = j["k"].get<Index>();
+        Property root;
+        Property &top = root.add("top", "");
+        for (Index i = 0; i < n; ++i) top.add("c" + std::to_string(i % k), std::to_string(i));
+        json r = json::object();
+        r["size"] = top.size();
+        json last = json::array(), cnt = json::array();
+        for (Index q = 0; q < k; ++q) {
+          std::string nm = "c" + std::to_string(q);
+          last.push_back(top.exists(nm) ? json(top.get(nm).value()) : json(nullptr));
+          cnt.push_back(top.Select(nm).size());
+        }
+        r["last"] = last;
+        r["count"] = cnt;
+        r["star"] = root.Select("top.*").size();
+        std::string f = TmpName("bulk");
+        WriteXml(f, root, 1);
+        Property back;
+        back.LoadFromXML(f);
+        r["rt_size"] = back.get("top").size();
+        bool same = true;
+        {
+          auto a = top.begin();
+          const Property &bt = back.get("top");
+          auto b = bt.begin();
+          for (; a != top.end() && b != bt.end(); ++a, ++b)
+            if (a->name() != b->name() || a->value() != b->value() || b->path() != "top") same = false;
+          if ((a != top.end()) != (b != bt.end())) same = false;
+        }
+        r["rt_same"] = same;
+        top.deleteChildren([](const Property &c) { return c.name() == "c0"; });
+        r["after_del"] = top.size();
+        r["c0_gone"] = !top.exists("c0");
+        json last2 = json::array();
+        for (Index q = 1; q < k; ++q) {
+          std::string nm = "c" + std::to_string(q);
+          last2.push_back(top.exists(nm) ? json(top.get(nm).value()) : json(nullptr));
+        }
+        r["last_after_del"] = last2;
+        std::cout << "bulk " << r.dump() << std::endl;
       } else if (verb == "pt") {
         std::string op = j["op"].get<std::string>();
         json r = json::object();
@@ -309,8 +418,11 @@ int main(int argc, char **argv) {
         }
         r["attr"] = at;
         json out = json::array();
-        Dump(pt, 0, out, true);
+        path_errors = 0;
+        path_example.clear();
+        Dump(pt, 0, out, true, "", true);
         r["tree"] = out;
+        r["paths"] = json::array({path_errors, path_example});
         std::cout << "res " << r.dump() << std::endl;
       } else {
         std::cout << "err unknown command" << std::endl;
